@@ -405,4 +405,312 @@ theorem clear_spec {s : BB} (inv : Inv s) : Inv (clear s) ∧ abs (clear s) = []
   · constructor <;> simp [clear] <;> omega
   · simp [abs, clear, slice]
 
+/-- the first `k` stored bytes -/
+theorem isl_store_prefix {b : List Byte} {off k : Int} {src : List Byte} (ho : 0 ≤ off)
+    (h : off + src.length ≤ b.length) (hk0 : 0 ≤ k) (hk : k ≤ src.length) :
+    slice (store b off.toNat src) off.toNat k.toNat = src.take k.toNat := by
+  rw [← isl_take (n := (src.length : Int)) hk0 hk, isl_store_same ho h]
+
+theorem isl_store0_prefix {b : List Byte} {k : Int} {src : List Byte}
+    (h : (src.length : Int) ≤ b.length) (hk0 : 0 ≤ k) (hk : k ≤ src.length) :
+    slice (store b 0 src) 0 k.toNat = src.take k.toNat := by
+  have := isl_store_prefix (b := b) (off := 0) (k := k) (src := src) (by omega) (by omega) hk0 hk
+  simpa using this
+
+/-- a partial advance: `[r, w)` extended by the first `k` stored bytes -/
+theorem isl_store_extend_k {b : List Byte} {r w l k : Int} {src : List Byte} (hr : 0 ≤ r)
+    (hrw : r ≤ w) (h : w + src.length ≤ b.length) (hk0 : 0 ≤ k) (hk : k ≤ src.length)
+    (hl : l = w + k - r) :
+    slice (store b w.toNat src) r.toNat l.toNat = slice b r.toNat (w - r).toNat ++ src.take k.toNat := by
+  subst hl
+  rw [isl_split (w - r) hr (by omega) (by omega)]
+  rw [isl_store_before hr (by omega) (by omega) (by omega)]
+  have e1 : r + (w - r) = w := by omega
+  have e2 : w + k - r - (w - r) = k := by omega
+  rw [e1, e2, isl_store_prefix (by omega) h hk0 hk]
+
+theorem isl_store_extend0_k {b : List Byte} {w l k : Int} {src : List Byte} (hw : 0 ≤ w)
+    (h : w + src.length ≤ b.length) (hk0 : 0 ≤ k) (hk : k ≤ src.length) (hl : l = w + k) :
+    slice (store b w.toNat src) 0 l.toNat = slice b 0 w.toNat ++ src.take k.toNat := by
+  have := isl_store_extend_k (b := b) (r := 0) (w := w) (l := l) (k := k) (src := src)
+    (by omega) hw h hk0 hk (by omega)
+  simpa using this
+
+/-- the zero-copy writer pair `writer_fc(n)`, fill, `writer_move_n(p, k)` -/
+theorem wz_spec {s : BB} (inv : Inv s) (data : List Byte) {k : Int} (hk0 : 0 ≤ k)
+    (hk : k ≤ data.length) :
+    (writerFc s data.length = none ∧ contiguousWritable s < data.length ∧
+        jumpWritable s < data.length) ∨
+    (∃ off s1, writerFc s data.length = some off ∧ wr s off data = .ok s1 ∧
+      ((data.length : Int) ≤ contiguousWritable s ∨ (data.length : Int) ≤ jumpWritable s) ∧
+      (writerMoveN s1 off k).2 = true ∧ Inv (writerMoveN s1 off k).1 ∧
+      (writerMoveN s1 off k).1.c = s.c ∧
+      abs (writerMoveN s1 off k).1 = abs s ++ data.take k.toNat) := by
+  obtain ⟨cpos, len, w0, r0, wc, flat, wrap⟩ := inv
+  rcases layout s with ⟨hl, hr⟩ | ⟨hl, hr⟩ | hl
+  · have ht := flat hl
+    have hcw : contiguousWritable s = s.c - s.w := by simp [contiguousWritable, hl, hr]
+    have hjw : jumpWritable s = s.r - 1 := by simp [jumpWritable, hl, hr]
+    unfold writerFc
+    simp only [hcw, hjw]
+    by_cases h1 : s.c - s.w ≥ (data.length : Int)
+    · right
+      rw [if_pos h1]
+      have hlen' := istore_length (b := s.buf) (src := data) w0 (by omega)
+      refine ⟨_, _, rfl, wr_ok w0 (by omega), Or.inl h1, ?_⟩
+      unfold writerMoveN
+      rw [if_neg (by omega)]
+      by_cases h2 : s.w + k = s.c
+      · rw [advanceW_wrap0 (by arith) (by arith)]
+        refine ⟨rfl, ?_, rfl, ?_⟩
+        · constructor <;> simp <;> omega
+        · rw [abs_wrap (by arith), abs_flat hl]
+          simp only [Int.toNat_zero, slice_zero, List.append_nil]
+          exact isl_store_extend_k r0 hl (by omega) hk0 hk (by omega)
+      · rw [advanceW_plain (by arith) (by arith)]
+        refine ⟨rfl, ?_, rfl, ?_⟩
+        · constructor <;> simp <;> omega
+        · rw [abs_flat (by arith), abs_flat hl]
+          exact isl_store_extend_k r0 hl (by omega) hk0 hk (by arith)
+    · rw [if_neg h1]
+      by_cases h3 : s.r - 1 ≥ (data.length : Int)
+      · right
+        rw [if_pos h3]
+        have hlen' := store0_length (b := s.buf) (src := data) (by omega)
+        refine ⟨_, _, rfl, wr_ok0 (by omega), Or.inr h3, ?_⟩
+        unfold writerMoveN
+        rw [if_pos rfl, if_pos (by arith)]
+        refine ⟨rfl, ?_, rfl, ?_⟩
+        · constructor <;> simp <;> omega
+        · rw [abs_wrap (by arith), abs_flat hl]
+          simp only
+          rw [isl_store0_after (by omega) (by omega), isl_store0_prefix (by omega) hk0 hk]
+      · left
+        rw [if_neg h3]
+        exact ⟨rfl, by omega, by omega⟩
+  · have ht := flat hl
+    have hcw : contiguousWritable s = s.c - s.w - 1 := by simp [contiguousWritable, hr] <;> omega
+    have hjw : jumpWritable s = 0 := by simp [jumpWritable, hr]
+    unfold writerFc
+    simp only [hcw, hjw]
+    by_cases h1 : s.c - s.w - 1 ≥ (data.length : Int)
+    · right
+      rw [if_pos h1]
+      have hlen' := istore_length (b := s.buf) (src := data) w0 (by omega)
+      refine ⟨_, _, rfl, wr_ok w0 (by omega), Or.inl h1, ?_⟩
+      unfold writerMoveN
+      by_cases hw : s.w = 0
+      · rw [if_pos hw, if_neg (by arith)]
+        refine ⟨rfl, ?_, rfl, ?_⟩
+        · constructor <;> simp <;> omega
+        · rw [abs_flat (by arith), abs_flat hl]
+          simp only
+          rw [isl_store_extend_k r0 hl (by omega) hk0 hk (by omega)]
+      · rw [if_neg hw, advanceW_plain (by arith) (by arith)]
+        refine ⟨rfl, ?_, rfl, ?_⟩
+        · constructor <;> simp <;> omega
+        · rw [abs_flat (by arith), abs_flat hl]
+          exact isl_store_extend_k r0 hl (by omega) hk0 hk (by arith)
+    · left
+      rw [if_neg h1, if_neg (by omega)]
+      exact ⟨rfl, by omega, by omega⟩
+  · have ht := wrap hl
+    have hnl : ¬ s.w ≥ s.r := by omega
+    have hcw : contiguousWritable s = s.r - s.w - 1 := by simp [contiguousWritable, hnl]
+    have hjw : jumpWritable s = 0 := by simp [jumpWritable, hnl]
+    unfold writerFc
+    simp only [hcw, hjw]
+    by_cases h1 : s.r - s.w - 1 ≥ (data.length : Int)
+    · right
+      rw [if_pos h1]
+      have hlen' := istore_length (b := s.buf) (src := data) w0 (by omega)
+      refine ⟨_, _, rfl, wr_ok w0 (by omega), Or.inl h1, ?_⟩
+      unfold writerMoveN
+      by_cases hw : s.w = 0
+      · rw [if_pos hw, if_neg (by arith)]
+        refine ⟨rfl, ?_, rfl, ?_⟩
+        · constructor <;> simp <;> omega
+        · rw [abs_wrap (by arith), abs_wrap hl]
+          simp only
+          rw [isl_store_after w0 (by omega) (by omega),
+            isl_store_extend0_k w0 (by omega) hk0 hk (by omega), List.append_assoc]
+      · rw [if_neg hw, advanceW_plain (by arith) (by arith)]
+        refine ⟨rfl, ?_, rfl, ?_⟩
+        · constructor <;> simp <;> omega
+        · rw [abs_wrap (by arith), abs_wrap hl]
+          simp only
+          rw [isl_store_after w0 (by omega) (by omega),
+            isl_store_extend0_k w0 (by omega) hk0 hk rfl, List.append_assoc]
+    · left
+      rw [if_neg h1, if_neg (by omega)]
+      exact ⟨rfl, by omega, by omega⟩
+
+/-- the deprecated pair `writer_fc(n)`, fill, `writer_move(n)` (full advance) -/
+theorem wd_spec {s : BB} (inv : Inv s) (data : List Byte) :
+    (writerFc s data.length = none ∧ contiguousWritable s < data.length ∧
+        jumpWritable s < data.length) ∨
+    (∃ off s1, writerFc s data.length = some off ∧ wr s off data = .ok s1 ∧
+      ((data.length : Int) ≤ contiguousWritable s ∨ (data.length : Int) ≤ jumpWritable s) ∧
+      (writerMove s1 data.length).2 = true ∧ Inv (writerMove s1 data.length).1 ∧
+      (writerMove s1 data.length).1.c = s.c ∧
+      abs (writerMove s1 data.length).1 = abs s ++ data) := by
+  obtain ⟨cpos, len, w0, r0, wc, flat, wrap⟩ := inv
+  rcases layout s with ⟨hl, hr⟩ | ⟨hl, hr⟩ | hl
+  · have ht := flat hl
+    have hcw : ∀ b, contiguousWritable { s with buf := b } = s.c - s.w := by
+      intro b; simp [contiguousWritable, hl, hr]
+    have hjw : ∀ b, jumpWritable { s with buf := b } = s.r - 1 := by
+      intro b; simp [jumpWritable, hl, hr]
+    have hcw' := hcw s.buf
+    have hjw' := hjw s.buf
+    unfold writerFc
+    simp only [hcw', hjw']
+    by_cases h1 : s.c - s.w ≥ (data.length : Int)
+    · right
+      rw [if_pos h1]
+      have hlen' := istore_length (b := s.buf) (src := data) w0 (by omega)
+      refine ⟨_, _, rfl, wr_ok w0 (by omega), Or.inl h1, ?_⟩
+      unfold writerMove
+      simp only [hcw, hjw]
+      rw [if_pos h1]
+      by_cases h2 : s.w + data.length = s.c
+      · rw [advanceW_wrap0 (by arith) (by arith)]
+        refine ⟨rfl, ?_, rfl, ?_⟩
+        · constructor <;> simp <;> omega
+        · rw [abs_wrap (by arith), abs_flat hl]
+          simp only [Int.toNat_zero, slice_zero, List.append_nil]
+          exact isl_store_extend r0 hl (by omega) (by omega)
+      · rw [advanceW_plain (by arith) (by arith)]
+        refine ⟨rfl, ?_, rfl, ?_⟩
+        · constructor <;> simp <;> omega
+        · rw [abs_flat (by arith), abs_flat hl]
+          exact isl_store_extend r0 hl (by omega) (by arith)
+    · rw [if_neg h1]
+      by_cases h3 : s.r - 1 ≥ (data.length : Int)
+      · right
+        rw [if_pos h3]
+        have hlen' := store0_length (b := s.buf) (src := data) (by omega)
+        refine ⟨_, _, rfl, wr_ok0 (by omega), Or.inr h3, ?_⟩
+        unfold writerMove
+        simp only [hcw, hjw]
+        rw [if_neg h1, if_pos h3]
+        refine ⟨rfl, ?_, rfl, ?_⟩
+        · constructor <;> simp <;> omega
+        · rw [abs_wrap (by arith), abs_flat hl]
+          simp only
+          rw [isl_store0_after (by omega) (by omega), isl_store0_same (by omega) rfl]
+      · left
+        rw [if_neg h3]
+        exact ⟨rfl, by omega, by omega⟩
+  · have ht := flat hl
+    have hcw : ∀ b, contiguousWritable { s with buf := b } = s.c - s.w - 1 := by
+      intro b; simp [contiguousWritable, hr] <;> omega
+    have hjw : ∀ b, jumpWritable { s with buf := b } = 0 := by
+      intro b; simp [jumpWritable, hr]
+    have hcw' := hcw s.buf
+    have hjw' := hjw s.buf
+    unfold writerFc
+    simp only [hcw', hjw']
+    by_cases h1 : s.c - s.w - 1 ≥ (data.length : Int)
+    · right
+      rw [if_pos h1]
+      have hlen' := istore_length (b := s.buf) (src := data) w0 (by omega)
+      refine ⟨_, _, rfl, wr_ok w0 (by omega), Or.inl h1, ?_⟩
+      unfold writerMove
+      simp only [hcw, hjw]
+      rw [if_pos h1, advanceW_plain (by arith) (by arith)]
+      refine ⟨rfl, ?_, rfl, ?_⟩
+      · constructor <;> simp <;> omega
+      · rw [abs_flat (by arith), abs_flat hl]
+        exact isl_store_extend r0 hl (by omega) (by arith)
+    · left
+      rw [if_neg h1, if_neg (by omega)]
+      exact ⟨rfl, by omega, by omega⟩
+  · have ht := wrap hl
+    have hnl : ¬ s.w ≥ s.r := by omega
+    have hcw : ∀ b, contiguousWritable { s with buf := b } = s.r - s.w - 1 := by
+      intro b; simp [contiguousWritable, hnl]
+    have hjw : ∀ b, jumpWritable { s with buf := b } = 0 := by
+      intro b; simp [jumpWritable, hnl]
+    have hcw' := hcw s.buf
+    have hjw' := hjw s.buf
+    unfold writerFc
+    simp only [hcw', hjw']
+    by_cases h1 : s.r - s.w - 1 ≥ (data.length : Int)
+    · right
+      rw [if_pos h1]
+      have hlen' := istore_length (b := s.buf) (src := data) w0 (by omega)
+      refine ⟨_, _, rfl, wr_ok w0 (by omega), Or.inl h1, ?_⟩
+      unfold writerMove
+      simp only [hcw, hjw]
+      rw [if_pos h1, advanceW_plain (by arith) (by arith)]
+      refine ⟨rfl, ?_, rfl, ?_⟩
+      · constructor <;> simp <;> omega
+      · rw [abs_wrap (by arith), abs_wrap hl]
+        simp only
+        rw [isl_store_after w0 (by omega) (by omega),
+          isl_store_extend0 w0 (by omega) rfl, List.append_assoc]
+    · left
+      rw [if_neg h1, if_neg (by omega)]
+      exact ⟨rfl, by omega, by omega⟩
+
+/-- the zero-copy reader pair `reader_fc(n)`, look at the `n` bytes, `reader_move(k)` -/
+theorem rz_spec {s : BB} (inv : Inv s) {n k : Int} (hn : 0 ≤ n) (hk0 : 0 ≤ k) (hk : k ≤ n) :
+    (readerFc s n = none ∧ contiguousReadable s < n) ∨
+    (readerFc s n = some s.r ∧ n ≤ contiguousReadable s ∧ n ≤ (abs s).length ∧
+      rd s s.r n = .ok ((abs s).take n.toNat) ∧
+      (readerMove s k).2 = true ∧ Inv (readerMove s k).1 ∧ (readerMove s k).1.c = s.c ∧
+      abs (readerMove s k).1 = (abs s).drop k.toNat) := by
+  have hlen := abs_length inv
+  obtain ⟨cpos, len, w0, r0, wc, flat, wrap⟩ := inv
+  by_cases hl : s.r ≤ s.w
+  · have ht := flat hl
+    have hcr : contiguousReadable s = s.w - s.r := by simp [contiguousReadable, hl]
+    have hjr : jumpReadable s = 0 := by simp [jumpReadable, hl]
+    simp only [readable, hcr, hjr] at hlen
+    unfold readerFc readerMove
+    simp only [hcr]
+    by_cases h1 : s.w - s.r ≥ n
+    · right
+      rw [if_pos h1, if_pos (by omega)]
+      refine ⟨rfl, h1, by omega, ?_, rfl, ?_⟩
+      · rw [rd_ok r0 hn (by omega), abs_flat hl, isl_take hn h1]
+      · by_cases h2 : s.w = s.r + k
+        · rw [refresh_eq (by arith)]
+          refine ⟨?_, rfl, ?_⟩
+          · constructor <;> simp [clear] <;> omega
+          · rw [abs_flat hl, isl_drop' r0 hk0 rfl, isl_nil (o := s.r + k) (by omega)]
+            simp [abs, clear, slice]
+        · rw [refresh_ne (by arith)]
+          refine ⟨?_, rfl, ?_⟩
+          · constructor <;> simp <;> omega
+          · rw [abs_flat hl, isl_drop' r0 hk0 rfl, abs_flat (by arith)]
+            simp only
+            congr 1; omega
+    · left
+      rw [if_neg h1]
+      exact ⟨rfl, by omega⟩
+  · have hl' : s.w < s.r := by omega
+    have ht := wrap hl'
+    have hnl : ¬ s.w ≥ s.r := by omega
+    have hcr : contiguousReadable s = s.t - s.r := by simp [contiguousReadable, hnl]
+    have hjr : jumpReadable s = s.w := by simp [jumpReadable, hnl]
+    simp only [readable, hcr, hjr] at hlen
+    unfold readerFc readerMove
+    simp only [hcr]
+    by_cases h1 : s.t - s.r ≥ n
+    · right
+      rw [if_pos h1, if_pos (by omega)]
+      refine ⟨rfl, h1, by omega, ?_, rfl, ?_⟩
+      · rw [rd_ok r0 hn (by omega), abs_wrap hl', take_wrap_le r0 hn h1 (by omega)]
+      · rw [refresh_ne (by arith)]
+        refine ⟨?_, rfl, ?_⟩
+        · constructor <;> simp <;> omega
+        · rw [abs_wrap hl', drop_wrap_le r0 hk0 (by omega) (by omega) rfl, abs_wrap (by arith)]
+          simp only
+          congr 3; omega
+    · left
+      rw [if_neg h1]
+      exact ⟨rfl, by omega⟩
+
 end MgProof.C07
